@@ -60,7 +60,7 @@ type Case struct {
 	// source need not look at its context); the combinator then sees items and End arrive under an ended context.
 	LaxSources bool `json:"lax_sources,omitempty"`
 	// EWraps: the error E that the source / callback fails with also wraps a context error
-	// (1 = context.Canceled, 2 = context.DeadlineExceeded) - an upstream call of its own timed out, say.
+	// (1 = context.Canceled, 2 = context.DeadlineExceeded, 3 = stream.End) - an upstream call of its own timed out, say.
 	// It is still E and has to surface as E.
 	EWraps int `json:"ewraps,omitempty"`
 }
@@ -78,6 +78,8 @@ func MkE(c Case) error {
 		return &CtxWrap{sk.NewSentinel("E"), context.Canceled}
 	case 2:
 		return &CtxWrap{sk.NewSentinel("E"), context.DeadlineExceeded}
+	case 3: // ... or the end marker (a decoder that ran out of input in the middle of a record): a failure, not the end
+		return &CtxWrap{sk.NewSentinel("E"), stream.End}
 	}
 	return sk.NewSentinel("E")
 }
